@@ -2,6 +2,7 @@ import Tfv.DriverCore
 import Tfv.Proofs.InferConstrMain
 import Tfv.Proofs.InferNoInternalTop
 import Tfv.Spec.HistoryShiftConstr
+import Tfv.Proofs.ResolvedElimCheck
 /-!
 # tfv-inv — the hypotheses of the engine theorems, checked on the runs the correspondence check makes
 
@@ -17,7 +18,8 @@ Input: the protocol lines of the driver (`lang`, `infer`; other lines are ignore
 `OkStoreC` and `Chains` are invariants of the engine (theorems `…_keeps`), so x and y can only be T unless a checker is
 incomplete; `Acyclic` is a hypothesis of the witness theorems that the engine does not establish, so z says whether those
 theorems applied to the run. A fourth character reports `historyStable` (T/F, `-` = arguments not concrete): the decidable hypothesis under
-which `C16s_history_independent_partial` says the run behind ANY history is the fresh run shifted.
+which `C16s_history_independent_partial` says the run behind ANY history is the fresh run shifted. Two numbers follow: the resolved
+elimination records of the final store and how many of them the verified monitor `elimHoldsB` accepts (`elimMonitor`).
 -/
 namespace Tfv
 open Tfv.C03C Tfv.C03P
@@ -27,17 +29,33 @@ def invOk (L : Lang) (σ : Store) : Bool × Bool × Bool := (okStoreCB L σ, Tfv
 
 def and3 (a b : Bool × Bool × Bool) : Bool × Bool × Bool := (a.1 && b.1, a.2.1 && b.2.1, a.2.2 && b.2.2)
 
-def runInferInv (L : Lang) (s : Schema) (args : List (Nat × Term)) : Nat × Bool × Bool × Bool :=
+/-- following bindings at every level gives a closed term -/
+partial def resolvedB (σ : Store) (t : Term) : Bool :=
+  match followT σ t with
+  | .var _ => false
+  | .app _ args => args.all (resolvedB σ)
+
+/-- The verified monitor of C03's last clause for elimination constraints (`elimHoldsB`, exact on resolved records by
+`C03e_monitor_exact_partial`): (number of elimination records of `σ` whose reference and alternatives are all resolved, how many of
+them the monitor accepts). Covers the case no theorem covers yet - records marked fulfilled with several alternatives. -/
+def elimMonitor (L : Lang) (σ : Store) : Nat × Nat :=
+  (List.range σ.constrs.length).foldl (fun (acc : Nat × Nat) c =>
+    match getConstr σ c with
+    | .elim r as _ =>
+      if resolvedB σ r && as.all (resolvedB σ) then (acc.1 + 1, acc.2 + (if Tfv.C03E.elimHoldsB L σ c then 1 else 0)) else acc
+    | _ => acc) (0, 0)
+
+def runInferInv (L : Lang) (s : Schema) (args : List (Nat × Term)) : Nat × Bool × Bool × Bool × Nat × Nat :=
   match instantiate L engineFuel {} s with
-  | .error _ => (0, true, true, true)
+  | .error _ => (0, true, true, true, 0, 0)
   | .ok (σ, f) =>
-    let rec go (σ : Store) (f : Term) (n : Nat) (ok : Bool × Bool × Bool) : List (Nat × Term) → Nat × Bool × Bool × Bool
-      | [] => (n, ok)
+    let rec go (σ : Store) (f : Term) (n : Nat) (ok : Bool × Bool × Bool) : List (Nat × Term) → Nat × Bool × Bool × Bool × Nat × Nat
+      | [] => let m := elimMonitor L σ; (n, ok.1, ok.2.1, ok.2.2, m.1, m.2)
       | (nw, a) :: rest =>
         let base := σ.vars.length
         let σ1 := allocVars σ 0 nw
         match applyT L engineFuel σ1 f (a.shift base) with
-        | .error _ => (n, ok)
+        | .error _ => (n, ok.1, ok.2.1, ok.2.2, 0, 0)
         | .ok (σ2, r) => go σ2 r (n + 1) (and3 ok (invOk L σ2)) rest
     go σ f 1 (invOk L σ) args
 
@@ -60,11 +78,11 @@ partial def invLoop (h : IO.FS.Stream) (out : IO.FS.Stream) (st : DState) : IO U
     | .list (.atom "infer" :: s :: args) =>
       match Sexp.schema? s, args.mapM Sexp.arg? with
       | some s, some args =>
-        let (n, a, b, c) := runInferInv st.lang s args
+        let (n, a, b, c, em, eh) := runInferInv st.lang s args
         let f (x : Bool) := if x then "T" else "F"
         let h := match historyStable st.lang s args with
           | some true => "T" | some false => "F" | none => "-"
-        out.putStrLn s!"inv {n} {f a}{f b}{f c}{h}"
+        out.putStrLn s!"inv {n} {f a}{f b}{f c}{h} {em} {eh}"
       | _, _ => out.putStrLn "bad-line"
       invLoop h out st
     | .list (.atom "lang" :: _) =>
